@@ -562,6 +562,87 @@ def rule_cicp_hdr(ctx):
                 "of such an image has no cicp tag and is read back as an unknown curve" % (cs, wp, pr, tf, "None" if got is None else list(got), len(bad)), fn=f)
 
 
+def rule_tf_curves(ctx):
+    """the scalar transfer curves, evaluated from MIR, follow the curves of the cited standards and invert each other"""
+    import math
+    from .. import absint
+    rid = "R-TF-CURVES"
+    ctx.rule(rid, "the scalar (non-SIMD) transfer functions of jxl_color::tf are evaluated from MIR on 15 sample values each (both signs, "
+                  "both sides of every branch threshold) and compared with the defining formula: PQ (SMPTE ST 2084, both directions, "
+                  "intensity target 10000), HLG (ARIB STD-B67 OETF and its inverse), sRGB to linear (IEC 61966-2-1), BT.709 to linear; "
+                  "tolerance 2e-5 absolute (the curves are rational / polynomial approximations), which also bounds how far a curve "
+                  "and its inverse can be from undoing each other.  A changed threshold, constant, exponent or sign rule differs at "
+                  "some sample")
+    cr = ctx.prog.crate("jxl_color")
+
+    def pq_inv(x):
+        m1, m2 = 2610 / 16384, 2523 / 4096 * 128
+        c1, c2, c3 = 3424 / 4096, 2413 / 4096 * 32, 2392 / 4096 * 32
+        y = abs(x) ** m1
+        return math.copysign(((c1 + c2 * y) / (1 + c3 * y)) ** m2, x)
+
+    def pq_eotf(e):
+        m1, m2 = 2610 / 16384, 2523 / 4096 * 128
+        c1, c2, c3 = 3424 / 4096, 2413 / 4096 * 32, 2392 / 4096 * 32
+        p = abs(e) ** (1 / m2)
+        return math.copysign((max(p - c1, 0) / (c2 - c3 * p)) ** (1 / m1), e)
+
+    A, B, C = 0.17883277, 0.28466892, 0.55991073
+
+    def hlg_oetf(x):
+        a = abs(x)
+        return math.copysign(math.sqrt(3 * a) if a <= 1 / 12 else A * math.log(12 * a - B) + C, x)
+
+    def hlg_inv(e):
+        a = abs(e)
+        return math.copysign(a * a / 3 if a <= 0.5 else (math.exp((a - C) / A) + B) / 12, e)
+
+    def srgb_lin(v):
+        a = abs(v)
+        return math.copysign(a / 12.92 if a <= 0.04045 else ((a + 0.055) / 1.055) ** 2.4, v)
+
+    def bt709_lin(v):
+        return v / 4.5 if v <= 0.081 else ((v + 0.099) / 1.099) ** (1 / 0.45)
+
+    xs = [0.0, 1e-5, 5e-5, 2e-4, 0.003, 0.03, 0.04, 0.05, 0.08, 0.09, 0.3, 0.5, 0.51, 0.75, 1.0]
+    signed = xs + [-0.6, -0.02]
+    scalar = [("tf::pq::linear_to_pq_generic", pq_inv, signed, [10000.0]), ("tf::pq::pq_to_linear_generic", pq_eotf, signed, [10000.0])]
+    slices = [("tf::linear_to_hlg", hlg_oetf, signed), ("tf::hlg_to_linear", hlg_inv, signed), ("tf::srgb::srgb_to_linear", srgb_lin, signed),
+              ("tf::bt709::bt709_to_linear", bt709_lin, xs)]
+    got_all = {}
+    rows = 0
+    for nm, ref, vals, extra in [(a, b, c, d) for a, b, c, d in scalar] + [(a, b, c, None) for a, b, c in slices]:
+        f = cr.fns.get("jxl_color::" + nm)
+        if f is None:
+            ctx.anchor_missing(rid, "jxl_color::" + nm)
+            continue
+        ctx.seen(f)
+        try:
+            if extra is not None:
+                out = []
+                for v in vals:
+                    ev = absint.Evaluator(ctx.prog)
+                    out.append(ev.call_fn(f, [v] + extra))
+            else:
+                buf = list(vals)
+                absint.Evaluator(ctx.prog, max_steps=200000).call_fn(f, [buf])
+                out = buf
+        except absint.Unsupported as e:
+            ctx.bad(rid, nm + "|not-evaluable", "jxl_color::%s is no longer a function the evaluator can decide (%s)" % (nm, e), fn=f)
+            continue
+        rows += len(vals)
+        got_all[nm] = dict(zip(vals, out))
+        bad = [(v, o, ref(v)) for v, o in zip(vals, out) if not isinstance(o, (int, float)) or abs(float(o) - ref(v)) > 2e-5]
+        if bad:
+            v, o, w = bad[0]
+            ctx.bad(rid, nm + "|curve", "jxl_color::%s(%r) = %r, the standard's curve gives %.7f (%d of %d samples differ by more than 2e-5)"
+                    % (nm, v, o, w, len(bad), len(vals)), fn=f)
+        else:
+            ctx.ok(rid, nm, "%d samples within 2e-5 of the defining curve" % len(vals), nontrivial=True, fn=f)
+    ctx.count(rid + ".rows", rows)
+    ctx.floor(rid + ".rows", 6 * 15)
+
+
 def main(pid, tier, repo=None):
     ctx = Ctx(pid, tier, configs=("workspace",), repo=repo)
     specconst.run(ctx, pid, floor=20)
@@ -572,6 +653,7 @@ def main(pid, tier, repo=None):
     rule_tf_sign(ctx)
     rule_trc_present(ctx)
     rule_cicp_hdr(ctx)
+    rule_tf_curves(ctx)
     ctx.not_decided("numerical tolerance statements over real-valued functions: that the synthesised profile parses back to an equivalent "
                     "encoding for custom chromaticities and arbitrary gamma, that each transfer function's two directions compose to the "
                     "identity and are monotone, no-op detection of equivalent encodings")
